@@ -178,6 +178,8 @@ class TensorEval:
                 try:
                     c = self.ev(f, st.test, env)
                 except Unknown:
+                    if self.strict_if:
+                        raise
                     continue            # warnings / logging about degenerate inputs (tests on symbolic cells)
                 if isinstance(c, (bool, int)) or c is None or (np is not None and isinstance(c, (np.bool_, np.integer))):
                     self.block(f, st.body if c else st.orelse, env)
@@ -370,6 +372,8 @@ class TensorEval:
         raise Unknown(f'expression {t[:50]}')
 
     call_hook = None          # optional: (call node, Func, env, evaluator) -> value or NotImplemented
+    strict_if = False         # True: a branch condition that cannot be evaluated aborts the interpretation (exact evaluation of plumbing code)
+    PYTYPES = {'list': list, 'tuple': tuple, 'range': range, 'int': int, 'float': float, 'slice': slice, 'str': str, 'bool': bool, 'dict': dict}
 
     def call(self, f, e, env):
         if self.call_hook is not None:
@@ -404,6 +408,27 @@ class TensorEval:
                 self.depth -= 1
         if name in self.summaries and (isinstance(fn, ast.Name) or (isinstance(fn, ast.Attribute) and isinstance(fn.value, ast.Name) and fn.value.id not in env)):
             return self.summaries[name]([self.ev(f, a, env) for a in e.args], kw)
+        if isinstance(fn, ast.Name) and fn.id == 'isinstance' and fn.id not in env and len(e.args) == 2 and self.numeric:
+            tnodes = e.args[1].elts if isinstance(e.args[1], ast.Tuple) else [e.args[1]]
+            types = []
+            for t_ in tnodes:
+                tt = norm(t_)
+                if tt in self.PYTYPES and tt not in env:
+                    types.append(self.PYTYPES[tt])
+                elif tt in ('_np.ndarray', 'np.ndarray', 'numpy.ndarray'):
+                    types.append(np.ndarray)
+                elif tt in ('_np.integer', 'np.integer', 'numpy.integer'):
+                    types.append(np.integer)
+                elif tt in ('type(None)', 'NoneType'):
+                    types.append(type(None))
+                elif tt in ('type(...)', 'type(Ellipsis)'):
+                    types.append(type(Ellipsis))
+                else:
+                    raise Unknown(f'isinstance against `{tt[:30]}`')
+            v_ = self.ev(f, e.args[0], env)
+            if isinstance(v_, (Q, EnumMember)) or (isinstance(v_, np.ndarray) and v_.dtype == object):
+                raise Unknown('isinstance of a symbolic value')
+            return isinstance(v_, tuple(types))
         args = [self.ev(f, a, env) for a in e.args]
         if isinstance(fn, ast.Name) and fn.id == 'slice' and fn.id not in env and all(a is None or isinstance(a, (int, np.integer)) for a in args) and 1 <= len(args) <= 3:
             return slice(*[None if a is None else int(a) for a in args])
